@@ -38,14 +38,16 @@ Structural(m) == OfTopic(m) /\ m.instOk /\ NamedSetUsable(m) /\ CountOk(m) /\ No
 SenderExists(m) == m.snd >= 0 /\ m.snd < N
 (* every share / key is judged on its own, against the identity it is attached to: a genuine
    token of another identity of the same message (kind "swap") is not genuine for this one *)
-ShareGenuine(e) == e.k = "valid"
+(* genuine = made with the key material of the newest successful key generation of the named
+   set AS THE DATABASE HOLDS IT NOW (after a restart: not the superseded one) *)
+ShareGenuine(e, recv) == IF recv.eonkey = "main" THEN e.k = "valid" ELSE e.k = "otherEon"
 
 (* the key stored in the receiver's database for the identity has exactly these bytes *)
 EqualsStoredKey(e, recv) ==
     /\ e.r \in WorldRanks
     /\ \/ e.k = "storedEqual" /\ (recv.stored = "wrongAll" \/ (recv.stored = "wrong1" /\ e.r = 1))
        \/ e.k = "valid" /\ recv.stored = "validAll"
-KeyGenuine(e, recv) == e.k = "valid" \/ EqualsStoredKey(e, recv)
+KeyGenuine(e, recv) == (IF recv.eonkey = "main" THEN e.k = "valid" ELSE e.k = "wrong") \/ EqualsStoredKey(e, recv)
 
 (* on a flavour keyper the message must also be one of that flavour (its genuine extra); the
    flavour's own signature rules are property C06, here the extra is genuine whenever present *)
@@ -55,7 +57,7 @@ WellFormed(fl, m, recv) ==
     /\ OfFlavour(fl, m)
     /\ Structural(m)
     /\ IF m.mt = "shares"
-       THEN SenderExists(m) /\ \A i \in DOMAIN m.entries : ShareGenuine(m.entries[i])
+       THEN SenderExists(m) /\ \A i \in DOMAIN m.entries : ShareGenuine(m.entries[i], recv)
        ELSE \A i \in DOMAIN m.entries : KeyGenuine(m.entries[i], recv)
 
 (* monitors over one observed outcome o *)
